@@ -108,20 +108,21 @@ FoI(tbl, keyOf, x) ==
     IN IF occ # {} THEN [tbl |-> tbl, res |-> MaxS(occ) - 1]
        ELSE [tbl |-> Append(tbl, x), res |-> Len(tbl)]
 
-\* find_or_extend as written: the comparison zip()s the wanted items with what is left of the
-\* table from the candidate position, so it ends where the TABLE ends
-FoEMatch(tbl, keyOf, items, i) ==
-    \A j \in 1..MinI(Len(items), Len(tbl) - i + 1) : keyOf[items[j]] = keyOf[tbl[i + j - 1]]
+\* find_or_extend: the first position (among those where the first wanted item occurs) at which the WHOLE
+\* sub-list is present; a position where the table ends before the sub-list does is no match (the code
+\* tests i + len(items) <= len(item_list) before comparing); otherwise the sub-list is appended
 FoE(tbl, keyOf, items) ==
-    IF items = <<>> THEN [tbl |-> tbl, res |-> 0]
-    ELSE LET good == {i \in 1..Len(tbl) : keyOf[tbl[i]] = keyOf[items[1]] /\ FoEMatch(tbl, keyOf, items, i)}
-         IN IF good # {} THEN [tbl |-> tbl, res |-> MinS(good) - 1]
-            ELSE [tbl |-> tbl \o items, res |-> Len(tbl)]
-\* the design: a candidate position counts only if the whole sub-list is there
-FoEDesign(tbl, keyOf, items) ==
     IF items = <<>> THEN [tbl |-> tbl, res |-> 0]
     ELSE LET good == {i \in 1..(Len(tbl) - Len(items) + 1) :
                          \A j \in 1..Len(items) : keyOf[items[j]] = keyOf[tbl[i + j - 1]]}
+         IN IF good # {} THEN [tbl |-> tbl, res |-> MinS(good) - 1]
+            ELSE [tbl |-> tbl \o items, res |-> Len(tbl)]
+\* the defect this design excludes (srctools before the fix of find_or_extend): the comparison zip()ped the
+\* wanted items with what was left of the table, so it ended where the TABLE ended and accepted a prefix.
+\* Kept only to show (BspTables_diag.cfg) that the law tells the two apart.
+FoETailPrefix(tbl, keyOf, items) ==
+    IF items = <<>> THEN [tbl |-> tbl, res |-> 0]
+    ELSE LET good == {i \in 1..Len(tbl) : \A j \in 1..MinI(Len(items), Len(tbl) - i + 1) : keyOf[items[j]] = keyOf[tbl[i + j - 1]]}
          IN IF good # {} THEN [tbl |-> tbl, res |-> MinS(good) - 1]
             ELSE [tbl |-> tbl \o items, res |-> Len(tbl)]
 
